@@ -16,6 +16,13 @@ ASSUME = [
 
 
 def run(pid, tier, seed, replay=None):
+    extra = ()
+    if pid == "C20":
+        # the synchronous public API above the Writer (DataWriter::wait_for_acknowledgments): full command queue,
+        # time-out, acknowledgment before the time-out, a wait replaced by a second one, no reader
+        extra = (dict(driver="sched", model="Wakeup.tla", trace_module="Trace_Wakeup.tla", trace_cfg="Trace_Wakeup.cfg",
+                      tiers={"quick": dict(mc=[], random=dict(runs=10, events=1)), "thorough": dict(mc=[], random=dict(runs=40, events=1))},
+                      random_mode="syncwait"),)
     return run_pipeline(pid, tier, seed, replay, driver="writer", model="RtpsWriter.tla",
                         trace_module="Trace_RtpsWriter.tla", trace_cfg="Trace_RtpsWriter.cfg",
-                        tiers=TIERS, prefixes=(pid + "_",), assumptions=ASSUME)
+                        tiers=TIERS, prefixes=(pid + "_",), assumptions=ASSUME, extra_sources=extra)
